@@ -12,27 +12,48 @@ RULE = ("schedules = a scripted beacon node (validators with activation/exit epo
         "clock moves (on time, mid-slot, several slots at once landing on / after a slot boundary); generated (a) by TLC "
         "simulation of SchedulerGen and (b) by a seeded random generator (3-5 epochs of 3-4 slots, trimming reached); "
         "executed on the real scheduler.NewForT inside a synctest bubble with a fake clock, reaching the node directly, "
-        "through a real eth2wrap.DutiesCache, or with feature disable_duties_cache; distinct = distinct recorded traces")
+        "through a real eth2wrap.DutiesCache, or with feature disable_duties_cache; plus the alpha features "
+        "fetch_att_on_block / fetch_att_on_block_with_delay (off / either / both) with SSE head events delivered to "
+        "Scheduler.HandleHeadEvent before the slot's tick, from inside schedSlotFunc, between slot start and the attester "
+        "deadline, on/around 1/3 and 1/3+300ms, after it, twice, for other slots and slots without attester duty (flags on: "
+        "the scheduler runs on the synctest bubble's virtual clock, every event carries its exact virtual instant); "
+        "distinct = distinct recorded traces")
 
 
 # ------------------------------------------------------------------------------------------------
 def from_tlc(hist, k):
-    """A behaviour of SchedulerGen (SlotDur = 3 units per slot) as an executor schedule."""
+    """A behaviour of SchedulerGen (SlotDur = 3 units per slot) as an executor schedule.  Head events recorded while
+    the run loop had just received a slot are delivered from inside schedSlotFunc of that slot (Cfg "hs"), the others
+    as Head steps between the clock moves; a head event one unit before a slot boundary is moved to 1..3999 ms before
+    it (k picks), so that "just before the slot's tick" is reached."""
     unit = SLOTMS // 3
     c = hist[0]
     t = c["truth"]
     fails, n = [], 0
-    steps = []
+    steps, hs = [], []
+    feat = c.get("feat", "off")
+    now = c["start"] * unit
     for e in hist[1:]:
         if e["ev"] == "Call":
             if not e["ok"]:
                 fails.append(n)
             n += 1
         elif e["ev"] == "Advance":
-            steps.append({"ev": "Advance", "to": e["to"] * unit})
+            now = e["to"] * unit
+            steps.append({"ev": "Advance", "to": now})
+        elif e["ev"] == "Head":
+            if e["atsched"]:
+                hs.append({"at": e["sslot"], "slot": e["slot"]})
+            else:
+                if now % SLOTMS == 2 * unit and (k + len(steps)) % 2 == 0:
+                    now += unit - [1, 7, 250, 3999][(k + len(steps) // 2) % 4]
+                    steps.append({"ev": "Advance", "to": now})
+                steps.append({"ev": "Head", "slot": e["slot"]})
+    if feat == "delay" and k % 4 == 3:
+        feat = "both"
     cfg = {"ev": "Cfg", "S": t["S"], "slotms": SLOTMS, "start": c["start"] * unit, "mode": MODES[k % 3],
            "vals": sorted(t["vals"], key=lambda v: v["id"]), "att": t["att"], "pro": t["pro"], "sync": t["sync"],
-           "fails": fails}
+           "fails": fails, "feat": feat, "clock": "virt" if feat != "off" or k % 2 else "fake", "fo": True, "hs": hs}
     return [cfg] + steps
 
 
@@ -95,6 +116,78 @@ def random_schedules(seed, n, big):
             now = to
         cfg = {"ev": "Cfg", "S": S, "slotms": SLOTMS, "start": start, "mode": r.choice(MODES), "vals": vals,
                "att": att, "pro": pro, "sync": syn, "fails": fails}
+        out.append([cfg] + steps)
+    return out
+
+
+# instants (ms into the slot) at which a head event for a slot is interesting: the attester deadline is 4000 (4300 with
+# the _with_delay flag), the aggregator's 8000; negative = before the slot's tick
+HEAD_OFFS = [-11000, -4001, -3000, -300, -7, -1, 0, 1, 300, 2000, 3999, 4000, 4001, 4299, 4300, 4301, 6000, 8000, 11999]
+
+
+def feature_schedules(seed, n):
+    """Feature flags x head events.  The scripted node is drawn as in random_schedules (fewer epochs); on top: the
+    flag setting, the clock ("virt" whenever a flag is on; flags off: both clocks) and head events: for slots with and
+    without attester duty, before the tick (also from inside schedSlotFunc: after the tick, before scheduleSlot did
+    anything), between slot start and the deadline, exactly on / around the deadlines, after them, twice, for the
+    next / previous / a far slot, with FetchOnly unregistered."""
+    r = vlib.rng(seed, "c15-feat")
+    base = random_schedules(seed * 7919 + 13, n, False)
+    out = []
+    for k, sch in enumerate(base):
+        cfg = dict(sch[0])
+        S = cfg["S"]
+        nslots = min(S * 3 + r.randrange(S), max(d["slot"] for d in cfg["att"]) + 2 if cfg["att"] else S * 2)
+        fam = ["on", "on", "delay", "both", "off", "off"][k % 6]
+        cfg["feat"] = fam
+        cfg["clock"] = "virt" if fam != "off" or k % 4 == 0 else "fake"
+        cfg["fo"] = r.random() < 0.93
+        cfg["fails"] = [f for f in cfg["fails"] if r.random() < 0.5]
+        att_slots = sorted({d["slot"] for d in cfg["att"]})
+        start = cfg["start"]
+        first = start // SLOTMS
+        heads = []          # (time, slot)
+        dens = r.choice([0.3, 0.6, 0.9])
+        for n_ in range(first, nslots + 1):
+            if n_ in att_slots:
+                if r.random() > dens:
+                    continue
+            elif r.random() > 0.15:
+                continue
+            for _ in range(r.choice([1, 1, 1, 2, 2, 3])):
+                off = r.choice(HEAD_OFFS) if r.random() < 0.85 else r.randrange(-SLOTMS, SLOTMS)
+                tgt = n_ + (r.choice([1, -1, 5, -4]) if r.random() < 0.12 else 0)
+                heads.append((n_ * SLOTMS + off, max(0, tgt)))
+        hs = []
+        if r.random() < 0.6:
+            for n_ in range(first, nslots + 1):
+                if r.random() < (0.5 if n_ in att_slots else 0.1):
+                    hs.append({"at": n_, "slot": n_ + (r.choice([1, -1]) if r.random() < 0.15 and n_ > 0 else 0)})
+        cfg["hs"] = hs
+        heads = sorted(h for h in heads if h[0] >= start)
+        steps, now = [], start
+        end = (nslots + 1) * SLOTMS
+        if cfg["clock"] == "virt":
+            for (tm, sl) in heads:
+                if tm > now:
+                    steps.append({"ev": "Advance", "to": tm})
+                    now = tm
+                steps.append({"ev": "Head", "slot": sl})
+            steps.append({"ev": "Advance", "to": max(end, now + 1)})
+        else:
+            # fake clock (flags off): the clock moves of the base schedule; the head events go between them
+            hq = list(heads)
+            for st in sch[1:]:
+                while hq and hq[0][0] < st["to"]:
+                    tm, sl = hq.pop(0)
+                    if tm > now and tm // SLOTMS == now // SLOTMS:      # stay inside the slot: no tick in between
+                        steps.append({"ev": "Advance", "to": tm})
+                        now = tm
+                    steps.append({"ev": "Head", "slot": sl})
+                steps.append(st)
+                now = st["to"]
+                if now >= end:
+                    break
         out.append([cfg] + steps)
     return out
 
@@ -166,14 +259,58 @@ def mutators():
         t[i]["ok"] = False
         t[i]["resp"] = []
         return t
+    def feat_on(t):
+        return t[0]["cfg"].get("feat", "off") != "off"
+
+    def waited_early(t):
+        # the instant of an attester duty that waited on the clock itself (feature flags) one ms earlier
+        if not feat_on(t):
+            return None
+        i = first(t, lambda e: e.get("ev") == "Trigger" and e["type"] == "att")
+        if i is None or t[i - 1].get("ev") != "Advance" or t[i - 2].get("ev") == "Advance":
+            return None
+        t[i - 1]["to"] -= 1
+        t[i]["at"] -= 1
+        return t
+
+    def waited_dropped(t):
+        if not feat_on(t):
+            return None
+        i = first(t, lambda e: e.get("ev") == "Trigger" and e["type"] == "att")
+        if i is None:
+            return None
+        del t[i]
+        return t
+
+    def waited_dup(t):
+        # the head event's early fetch logged as a second call of the duty subscribers
+        if not feat_on(t):
+            return None
+        i = first(t, lambda e: e.get("ev") == "FetchOnly")
+        if i is None:
+            return None
+        t[i]["ev"] = "Trigger"
+        return t
+
+    def wrong_at(t):
+        i = first(t, lambda e: e.get("ev") == "Trigger" and "at" in e)
+        if i is None:
+            return None
+        t[i]["at"] += 1
+        return t
     return [("Trigger event dropped", drop_trigger), ("definition altered", alter_def),
+            ("flags on: attester duty reaches the subscribers one ms before its deadline", waited_early),
+            ("flags on: attester Trigger dropped", waited_dropped),
+            ("flags on: FetchOnly call logged as a duty subscriber call", waited_dup),
+            ("Trigger carries an instant that is not the clock's", wrong_at),
             ("deadline one ms early", early_deadline), ("Trigger duplicated", dup_trigger),
             ("definition of a foreign validator added", foreign_def), ("scheduled slot in the future", future_slot),
             ("SlotSub event dropped", drop_slotsub), ("successful request logged as failed", flip_call)]
 
 
 CONTROLS = [("nofilter", "OnlyAssigned"), ("foreign", "OnlyAssigned"), ("early", "NotEarly"),
-            ("strictskip", "Complete"), ("dupfire", "AtMostOnce"), ("retick", "TickOrder")]
+            ("strictskip", "Complete"), ("dupfire", "AtMostOnce"), ("retick", "TickOrder"),
+            ("headfire", "NotEarly")]       # flags on: no wait when the slot's head event was handled before the trigger goroutine started
 
 
 def run(tier, seed):
@@ -182,6 +319,8 @@ def run(tier, seed):
     # stage 0: design check
     cfgs = ["SchedulerMC_thorough.cfg", "SchedulerMC_fail3.cfg"] if thorough else ["SchedulerMC_quick.cfg"]
     cfgs += ["SchedulerMC_interleave.cfg", "SchedulerMC_either.cfg"]
+    # feature flags + head events (runs next to the controls)
+    featcfg = "SchedulerMC_feat_thorough.cfg" if thorough else "SchedulerMC_feat.cfg"
     if os.environ.get("C15_SKIP_MC"):       # mutation experiments: the design check does not depend on the repository
         cfgs = []
         o.notes.append("design check skipped (C15_SKIP_MC)")
@@ -193,9 +332,18 @@ def run(tier, seed):
     from concurrent.futures import ThreadPoolExecutor
     ctl = [] if os.environ.get("C15_SKIP_MC") else CONTROLS
     dirs = [vlib.scratch("C15", FAMILY) for _ in ctl]       # scratch() is not thread-safe: create the directories first
-    with ThreadPoolExecutor(max_workers=6) as ex:
+    fdir = vlib.scratch("C15", FAMILY)
+    with ThreadPoolExecutor(max_workers=8) as ex:
+        ffut = None
+        if cfgs:
+            ffut = ex.submit(vlib.tlc, "C15", FAMILY, "SchedulerMC", featcfg, timeout=1700 if thorough else 600,
+                             workers=6, heap="6g" if thorough else "3g", sdir=fdir)
         res = list(ex.map(lambda cd: vlib.tlc("C15", FAMILY, "SchedulerMC", "SchedulerMC_ctl_%s.cfg" % cd[0][0], timeout=300,
                                               workers=2, heap="2g", sdir=cd[1]), zip(ctl, dirs)))
+        if ffut is not None:
+            r = ffut.result()
+            vlib.require_mc_ok(r, featcfg)
+            o.add_mc(featcfg[:-4], r)
     for (var, inv), r in zip(ctl, res):
         if r.violation != inv:
             raise vlib.Infra("design-spec control failed: variant %s should violate %s: %s" % (var, inv, r.summary()))
@@ -204,12 +352,18 @@ def run(tier, seed):
     hists, g = vlib.gen_schedules("C15", FAMILY, "SchedulerGen", "SchedulerGen.cfg", num=600 if thorough else 80,
                                   depth=500, seed=seed, limit=3000 if thorough else 300)
     scheds = [from_tlc(h, k) for k, h in enumerate(hists)]
+    fhists, g2 = vlib.gen_schedules("C15", FAMILY, "SchedulerGen", "SchedulerGenFeat.cfg", num=200 if thorough else 40,
+                                    depth=500, seed=seed, limit=1000 if thorough else 100)
+    scheds += [from_tlc(h, k) for k, h in enumerate(fhists)]
     rnd = random_schedules(seed, 2400 if thorough else 260, thorough)
+    fsch = feature_schedules(seed, 800 if thorough else 100)
     # stage 2+3
     vlib.conformance(o, FAMILY, "SchedulerTrace", "SchedulerTrace.cfg", "c15", scheds, tag="tlcgen", chunk=40)
     vlib.conformance(o, FAMILY, "SchedulerTrace", "SchedulerTrace.cfg", "c15", rnd, tag="random", chunk=40)
+    vlib.conformance(o, FAMILY, "SchedulerTrace", "SchedulerTrace.cfg", "c15", fsch, tag="feat", chunk=40)
     # binding negative controls on recorded traces
     tr = vlib.split_traces(vlib.read_ndjson(vlib.workdir("C15") + "/trace_random.ndjson"))
+    tr += vlib.split_traces(vlib.read_ndjson(vlib.workdir("C15") + "/trace_feat.ndjson"))
     if not o.violations:        # the controls corrupt ACCEPTED traces
         vlib.binding_selftest(o, FAMILY, "SchedulerTrace", "SchedulerTrace.cfg", tr, mutators())
     return vlib.finish(o, "model_checking", RULE,
@@ -217,7 +371,7 @@ def run(tier, seed):
                         "'not early' is judged on the deadline the scheduler hands to its delay function (slot start + offset), as the property names it; the delay function itself returns at once",
                         "'active' = reported active, or activating in the resolved epoch, by a validators answer used for that epoch",
                         "trace validation does not prescribe how often/where the next epoch is resolved on an epoch's last slot, nor which of several missed slots the ticker still emits (order and not-before-start are checked)",
-                        "beacon answers are consistent per epoch (one truth per schedule); reorg handling and the FetchAttOnBlock features are out of scope"])
+                        "beacon answers are consistent per epoch (one truth per schedule); reorg handling (HandleChainReorgEvent) is out of scope"])
 
 
 def replay(path):
